@@ -151,8 +151,15 @@ func init() {
 						pcx := tabula.Open(path)
 						_, e4 := pcx.PageCount()
 						pcx.Close()
-						same := (e1 != nil) == (terr != nil) && (e2 != nil) == (terr != nil) && (e3 != nil) == (terr != nil) && (e4 != nil) == (terr != nil)
-						r.Check(same, "entry-points-disagree:"+d.f.String(), fmt.Sprintf("a %s file named %q: Text %v, ToMarkdown %v, Document %v, Chunks %v, PageCount %v", d.f, "f"+e, terr, e1, e2, e3, e4), L(I(2), Bs("f"+e), c20ContentV(d, data)))
+						// and so does the same extractor asked again (a refusal is not forgotten, an admission not withdrawn)
+						again := tabula.Open(path)
+						_, _, a1 := again.Text()
+						_, _, a2 := again.Text()
+						_, _, a3 := again.ToMarkdown()
+						again.Close()
+						same := (e1 != nil) == (terr != nil) && (e2 != nil) == (terr != nil) && (e3 != nil) == (terr != nil) && (e4 != nil) == (terr != nil) &&
+							(a1 != nil) == (terr != nil) && (a2 != nil) == (terr != nil) && (a3 != nil) == (terr != nil)
+						r.Check(same, "entry-points-disagree:"+d.f.String(), fmt.Sprintf("a %s file named %q: Text %v, ToMarkdown %v, Document %v, Chunks %v, PageCount %v; one extractor asked three times: %v, %v, %v", d.f, "f"+e, terr, e1, e2, e3, e4, a1, a2, a3), L(I(2), Bs("f"+e), c20ContentV(d, data)))
 						os.Remove(path)
 						refused := terr != nil && (strings.Contains(terr.Error(), "file format mismatch") || strings.Contains(terr.Error(), "failed to detect file format"))
 						av := L(I(2), Bs("f"+e), c20ContentV(d, data))
